@@ -69,6 +69,7 @@ MIN_TIME_FUNCS = 5       # HON compute, RSP column / row variant, hybrid compute
 MIN_PAIRS = 4            # 6 on the tree (solver x4, data_gen x2)
 MIN_FLAT = 7             # 20 on the tree: 7 module-level in decomp/, 6 function-level in utils, 7 fallback / solver
 MIN_SYSPATH = 7
+MIN_IMPORT_SITES = 25    # 6 try/except groups + 26 single import statements of repository modules under quatica/ (32 on the tree)
 
 THIRD_PARTY = {"numpy", "scipy", "quaternion", "matplotlib", "PIL", "skimage", "seaborn", "pandas", "tqdm", "numba",
                "cv2", "imageio", "pytest", "sklearn", "h5py", "joblib", "psutil", "sympy", "torch", "mpl_toolkits",
@@ -92,6 +93,9 @@ def run(ctx):
                "their dunder methods are themselves analysed",
                "flat imports of modules directly under quatica/ rely on quatica/ being on sys.path (script / test "
                "convention); sub-package modules must extend sys.path themselves",
+               "the `quatica.`-qualified spelling is importable in both styles (the distribution root is on sys.path: "
+               "installed / .pth / working directory); in package mode flat spellings inside functions rely on the "
+               "sys.path extensions executed by the modules that `import quatica` loads",
                "D4 is a flow-insensitive intra-procedural taint; D3 judges the seed expression syntactically "
                "(argument or integer constant, never None by default)")
     eng = EffectsEngine(prog, scope).solve()
@@ -507,8 +511,110 @@ def _needed_dir(target, spelled):
     return "/".join(comps[:-k]) or "."
 
 
+def _alternatives(t):
+    """Import alternatives of a try/except group, in the order they are tried: [(handler | None, statements)].
+    A handler whose body is itself a try/except of imports contributes its alternatives in turn."""
+    out = [(None, list(t.body))]
+    for h in t.handlers:
+        body = [x for x in h.body if not isinstance(x, ast.Pass)] or list(h.body)
+        if len(body) == 1 and isinstance(body[0], ast.Try) and body[0].handlers and all(
+                isinstance(x, (ast.Import, ast.ImportFrom, ast.Pass)) for x in body[0].body):
+            sub = _alternatives(body[0])
+            out.append((h, sub[0][1]))
+            out.extend(sub[1:])
+        else:
+            out.append((h, list(h.body)))
+    return out
+
+
+def _catches_import_error(h, failing_style):
+    """Does this handler catch the ImportError raised when an import of the given style fails?  A failing relative
+    import raises plain ImportError (no parent package), a failing flat / package-absolute one ModuleNotFoundError."""
+    if h.type is None:
+        return True
+    names = [x.id for x in ast.walk(h.type) if isinstance(x, ast.Name)]
+    if any(n in ("Exception", "BaseException", "ImportError") for n in names):
+        return True
+    return "ModuleNotFoundError" in names and failing_style != "relative"
+
+
+def _package_mode_dirs(prog):
+    """Directories that module-level code has put on sys.path once `import quatica` has run: the sys.path extensions
+    of every module the package __init__ loads (transitively, through module-level imports, sub-package __init__
+    files included).  This is the reason flat spellings inside function bodies work in package mode."""
+    root = prog.modules.get("__pkg__")
+    if root is None:
+        return set()
+    seen, work, dirs = set(), [root], set()
+    while work:
+        m = work.pop()
+        if m.name in seen:
+            continue
+        seen.add(m.name)
+        dirs |= {d for (_pos, d, _n) in _syspath_dirs(m) if d is not None}
+        for st in _module_level_nodes(m.tree):
+            specs = []
+            if isinstance(st, ast.ImportFrom):
+                specs = [(st.module or "", st.level)]
+                if st.level and not st.module:
+                    specs = [(al.name, st.level) for al in st.names]
+            elif isinstance(st, ast.Import):
+                specs = [(al.name, 0) for al in st.names]
+            for spelled, level in specs:
+                t = prog.resolve_module(m, spelled, level)
+                if t is None:
+                    continue
+                work.append(t)
+                # importing a.b.c runs the __init__ of a and a.b first
+                parts = t.name.split(".")
+                for i in range(1, len(parts)):
+                    pk = prog.modules.get(".".join(parts[:i]))
+                    if pk is not None and pk.is_package:
+                        work.append(pk)
+    return dirs
+
+
+def _import_style(spelled, level):
+    if level:
+        return "relative"
+    return "package-absolute" if spelled.split(".")[0] == "quatica" else "flat"
+
+
+def _works(prog, mod, stmt, spelled, level, style_mode, own_dirs, pkg_dirs, in_function):
+    """Does this import spelling succeed when the library is used in `style_mode` ("package": imported as
+    quatica.<module>; "flat": quatica/ on sys.path, imported as <module>)?  Reasons, not names:
+      relative          package: always.  flat: only while it stays inside a sub-package that is itself importable flat
+                        (quatica/decomp/x.py -> `.y` is decomp.y); a top-level module has no parent package.
+      package-absolute  both: the distribution root is importable (installed / .pth / working directory) - assumption.
+      flat              flat: the needed directory is quatica/ (convention) or one the module itself put on sys.path before.
+                        package: the needed directory was put on sys.path by the module itself (before, at module level)
+                        or, for imports executed inside functions, by any module that `import quatica` loads."""
+    target = prog.resolve_module(mod, spelled, level)
+    if target is None:
+        return False
+    st = _import_style(spelled, level)
+    rel = mod.relpath.replace(os.sep, "/")
+    if st == "package-absolute":
+        return True
+    if st == "relative":
+        if style_mode == "package":
+            return True
+        comps = rel.split("/")[1:-1]            # packages below quatica/ that contain the module
+        return len(comps) >= level
+    need = _needed_dir(target, spelled)
+    pos = (stmt.lineno, stmt.col_offset)
+    own = {d for (p_, d, _n) in own_dirs if d is not None and (in_function or p_ < pos)}
+    if need in own:
+        return True
+    if style_mode == "flat":
+        return need == "quatica"
+    return in_function and need in pkg_dirs
+
+
 def check_d5(ctx, prog, thorough=False):
     n_pairs = n_flat = n_syspath = n_other = 0
+    n_groups = 0
+    pkg_dirs = _package_mode_dirs(prog)
     mods = [m for m in prog.modules.values() if m.relpath.startswith("quatica" + os.sep)]
     if thorough:
         mods += [m for m in prog.modules.values() if not m.relpath.startswith("quatica" + os.sep)]
@@ -528,7 +634,8 @@ def check_d5(ctx, prog, thorough=False):
             body = _bindings(prog, mod, t.body)
             if not body:
                 continue
-            hbs = [_bindings(prog, mod, h.body) for h in t.handlers]
+            flat_alts = _alternatives(t)[1:]
+            hbs = [_bindings(prog, mod, stmts) for _h, stmts in flat_alts]
             touches_repo = any(v[0] is not None for v in body.values()) or \
                 any(hb and any(v[0] is not None for v in hb.values()) for hb in hbs)
             if not touches_repo:
@@ -536,7 +643,7 @@ def check_d5(ctx, prog, thorough=False):
             where = f"{mod.relpath}::{_scope_name(mod, t, parents)}"
             n_pairs += 1
             problems = []
-            for h, hb in zip(t.handlers, hbs):
+            for (h, _stmts), hb in zip(flat_alts, hbs):
                 for s in h.body:
                     in_pair_handler.add(s)
                 if hb is None:
@@ -569,7 +676,7 @@ def check_d5(ctx, prog, thorough=False):
                         return any(al.name.split(".")[0] == "quatica" for al in st_.names)
                 return None
             first = _is_pkg_spelling(t.body)
-            others = [_is_pkg_spelling(h.body) for h in t.handlers]
+            others = [_is_pkg_spelling(stmts) for _h, stmts in flat_alts]
             if first is False and any(o is True for o in others):
                 problems.append("flat spelling is tried before the package spelling (a second copy of the module is loaded in package mode)")
             inst = f"{where}: try/except import pair binds {{{', '.join(sorted(body))}}} identically"
@@ -578,6 +685,89 @@ def check_d5(ctx, prog, thorough=False):
             for pr in problems:
                 ctx.ob(R5, f"{where}: {pr}", False, "the two import spellings do not provide the same objects",
                        where=where, construct=pr, loc=f"{mod.relpath}:{t.lineno}")
+        # ---------------- both import styles: every import site of a repository module must succeed whether the library
+        # is used as a package or as flat modules.  A site is one import statement or a try/except group of alternatives
+        # (tried in order; a handler is an alternative only if it catches the ImportError of the alternative before it).
+        if mod.relpath.startswith("quatica" + os.sep) and mod.name != "__pkg__":
+            grouped = set()
+            nested_try = set()
+            sites = []
+            for t in ast.walk(mod.tree):
+                if isinstance(t, ast.Try) and t.handlers and _bindings(prog, mod, t.body) and id(t) not in nested_try:
+                    fa = _alternatives(t)
+                    for x in ast.walk(t):
+                        if isinstance(x, ast.Try) and x is not t:
+                            nested_try.add(id(x))
+                    alts = [[st for st in t.body if isinstance(st, (ast.Import, ast.ImportFrom))]]
+                    for h, stmts in fa[1:]:
+                        hb = [st for st in stmts if isinstance(st, (ast.Import, ast.ImportFrom))]
+                        alts.append((h, hb))
+                    for a in [alts[0]] + [hb for _h, hb in alts[1:]]:
+                        grouped.update(id(x) for x in a)
+                    sites.append((t, alts))
+            for st in ast.walk(mod.tree):
+                if isinstance(st, (ast.Import, ast.ImportFrom)) and id(st) not in grouped:
+                    sites.append((st, [[st]]))
+            for anchor, alts in sites:
+                def specs_of(st):
+                    if isinstance(st, ast.ImportFrom):
+                        return [(st.module or "", st.level)]
+                    return [(al.name, 0) for al in st.names]
+                first_specs = [sp for st in alts[0] for sp in specs_of(st)]
+                if not any(prog.resolve_module(mod, sp, lv) is not None for sp, lv in first_specs) and not any(
+                        prog.resolve_module(mod, sp, lv) is not None for a in alts[1:] for st in a[1] for sp, lv in specs_of(st)):
+                    continue                     # not a repository module
+                where = f"{mod.relpath}::{_scope_name(mod, anchor, parents)}"
+                in_fn = _in_function(anchor, parents)
+                n_groups += 1
+                shown_first = ", ".join("." * lv + sp for sp, lv in first_specs)
+                verdict = {}
+                for mode in ("package", "flat"):
+                    ok = False
+                    prev_style = None
+                    for i, a in enumerate(alts):
+                        stmts = a if i == 0 else a[1]
+                        if i > 0 and not _catches_import_error(a[0], prev_style):
+                            continue             # this handler does not catch the failure of the previous alternative
+                        if not stmts:
+                            continue
+                        w = all(_works(prog, mod, st, sp, lv, mode, sysdirs, pkg_dirs, in_fn)
+                                for st in stmts for sp, lv in specs_of(st))
+                        if w:
+                            ok = True
+                            break
+                        prev_style = _import_style(*specs_of(stmts[0])[0])
+                    verdict[mode] = ok
+                if all(verdict.values()):
+                    ctx.ob(R5, f"{where}: import of {shown_first!r} succeeds in the package style and in the flat style "
+                               f"({len(alts)} alternative(s))", True, where=where, loc=f"{mod.relpath}:{anchor.lineno}")
+                    continue
+                for mode, ok in verdict.items():
+                    if ok:
+                        continue
+                    styles = sorted({_import_style(sp, lv) for i, a in enumerate(alts) for st in (a if i == 0 else a[1])
+                                     for sp, lv in specs_of(st)})
+                    what = (f"import of {shown_first!r} has only the {' / '.join(styles)} spelling: it fails when the library "
+                            f"is used in the {mode} style (no {'flat' if mode == 'flat' else 'package'}-style alternative)")
+                    # is the ImportError swallowed by an enclosing handler that neither re-imports nor re-raises?
+                    cur, swallowed = anchor, False
+                    while cur in parents:
+                        pn = parents[cur]
+                        if isinstance(pn, ast.Try) and cur in pn.body and pn is not anchor:
+                            for h in pn.handlers:
+                                if _catches_import_error(h, styles[0]) and not any(
+                                        isinstance(x, (ast.Raise, ast.Import, ast.ImportFrom)) for x in ast.walk(h)):
+                                    swallowed = True
+                        if isinstance(pn, (ast.FunctionDef, ast.AsyncFunctionDef)):
+                            break
+                        cur = pn
+                    msg = "ImportError under one of the two import styles"
+                    if swallowed:
+                        what += "; the ImportError is swallowed by an enclosing except handler"
+                        msg = ("the ImportError is caught by a blanket handler that neither re-imports nor re-raises: the code "
+                               "silently takes a different path under this import style")
+                    ctx.ob(R5, f"{where}: {what}", False, msg, where=where, construct=what,
+                           loc=f"{mod.relpath}:{anchor.lineno}")
         # ---------------- every import statement
         for s in ast.walk(mod.tree):
             if isinstance(s, ast.ImportFrom):
@@ -632,8 +822,11 @@ def check_d5(ctx, prog, thorough=False):
     if n_pairs < MIN_PAIRS or n_flat < MIN_FLAT or n_syspath < MIN_SYSPATH:
         raise AnalysisError(f"C14.D5: {n_pairs} import pairs / {n_flat} flat imports / {n_syspath} sys.path-dependent "
                             f"imports found, fewer than {MIN_PAIRS} / {MIN_FLAT} / {MIN_SYSPATH} confirmed by reading")
+    if n_groups < MIN_IMPORT_SITES:
+        raise AnalysisError(f"C14.D5: {n_groups} repository import sites found, fewer than {MIN_IMPORT_SITES} confirmed by reading")
     return {"import_pairs": n_pairs, "flat_imports": n_flat, "syspath_dependent_imports": n_syspath,
-            "package_imports": n_other}
+            "package_imports": n_other, "import_sites_checked_in_both_styles": n_groups,
+            "sys_path_dirs_in_package_mode": sorted(pkg_dirs)}
 
 
 # ================================================================================================
@@ -780,7 +973,25 @@ VARIANTS = [
      ["def _seed_global(seed):\n    if seed is None:\n        return\n    np.random.seed(seed)\n\n\nclass CGNEQSolver:\n",
       "\\1        _seed_global(seed)\n", "        _seed_global(self.seed)\n\\1"],
      ("F", R3, "_seed_global", "np.random.seed")),
+    ("dual import reduced to the bare relative spelling (ImportError swallowed by the blanket handler)", "quatica/solver.py", r"                try:\n                    from \.decomp\.qsvd import qr_qua\n                except Exception:\n                    from quatica\.decomp\.qsvd import qr_qua\n",
+     "                from .decomp.qsvd import qr_qua\n", ("F", R5, "_rsp_step_column", "has only the relative spelling: it fails when the library is used in the flat style")),
+    ("fallback handler catches only ModuleNotFoundError (a failing relative import raises ImportError)", "quatica/solver.py", r"                try:\n                    from \.decomp\.qsvd import qr_qua\n                except Exception:\n                    from quatica\.decomp\.qsvd import qr_qua\n",
+     "                try:\n                    from .decomp.qsvd import qr_qua\n                except ModuleNotFoundError:\n                    from decomp.qsvd import qr_qua\n", ("F", R5, "_rsp_step_column", "it fails when the library is used in the flat style")),
+    ("fallback replaced by pass", "quatica/solver.py", r"                try:\n                    from \.decomp\.qsvd import qr_qua\n                except Exception:\n                    from quatica\.decomp\.qsvd import qr_qua\n",
+     "                try:\n                    from .decomp.qsvd import qr_qua\n                except Exception:\n                    pass\n", ("F", R5, "_rsp_step_column", "has only the relative spelling")),
+    ("flat spelling tried before the package spelling", "quatica/solver.py", r"                try:\n                    from \.decomp\.qsvd import qr_qua\n                except Exception:\n                    from quatica\.decomp\.qsvd import qr_qua\n",
+     "                try:\n                    from decomp.qsvd import qr_qua\n                except Exception:\n                    from .decomp.qsvd import qr_qua\n", ("F", R5, "_rsp_step_column", "flat spelling is tried before the package spelling")),
+    ("module-level dual import reduced to the relative spelling", "quatica/data_gen.py",
+     r"try:\n    from \.decomp\.qsvd import qr_qua\nexcept Exception:\n    from decomp\.qsvd import qr_qua\n",
+     "from .decomp.qsvd import qr_qua\n",
+     ("F", R5, "data_gen.py::<module>", "has only the relative spelling: it fails when the library is used in the flat style")),
     # ---- behaviour-preserving: must stay silent
+    ("package-absolute spelling first, flat fallback", "quatica/solver.py", r"                try:\n                    from \.decomp\.qsvd import qr_qua\n                except Exception:\n                    from quatica\.decomp\.qsvd import qr_qua\n",
+     "                try:\n                    from quatica.decomp.qsvd import qr_qua\n                except Exception:\n                    from decomp.qsvd import qr_qua\n", ("S",)),
+    ("relative spelling first, flat fallback, except ImportError", "quatica/solver.py", r"                try:\n                    from \.decomp\.qsvd import qr_qua\n                except Exception:\n                    from quatica\.decomp\.qsvd import qr_qua\n",
+     "                try:\n                    from .decomp.qsvd import qr_qua\n                except ImportError:\n                    from decomp.qsvd import qr_qua\n", ("S",)),
+    ("three alternatives: relative, package-absolute, flat", "quatica/solver.py", r"                try:\n                    from \.decomp\.qsvd import qr_qua\n                except Exception:\n                    from quatica\.decomp\.qsvd import qr_qua\n",
+     "                try:\n                    from .decomp.qsvd import qr_qua\n                except ImportError:\n                    try:\n                        from quatica.decomp.qsvd import qr_qua\n                    except ImportError:\n                        from decomp.qsvd import qr_qua\n", ("S",)),
     ("seed guard spelled as: if not (seed is None)", "quatica/solver.py", r"(        self\.preconditioner_rank = max\(0, preconditioner_rank\)\n        self\.seed = seed\n)        if seed is not None:\n            np\.random\.seed\(seed\)\n",
      "\\1        if not (seed is None):\n            np.random.seed(seed)\n", ("S",)),
     ("seed guard spelled as: if seed is None: pass / else", "quatica/solver.py", r"(        self\.preconditioner_rank = max\(0, preconditioner_rank\)\n        self\.seed = seed\n)        if seed is not None:\n            np\.random\.seed\(seed\)\n",
